@@ -38,7 +38,9 @@ def run_tlc(module, cfg=None, env=None, workers=1, timeout=900, extra=(), workdi
         cmd += ['-config', cfg]
     cmd += list(extra) + [module]
     e = dict(os.environ)
-    e['JAVA_TOOL_OPTIONS'] = e.get('JAVA_TOOL_OPTIONS', '') + ' -Xmx%s -XX:+UseParallelGC' % heap
+    os.makedirs(wd, exist_ok=True)
+    # (the JVM's temporary directory is the run's own scratch directory: TLC leaves an empty tlc-<n> directory per run)
+    e['JAVA_TOOL_OPTIONS'] = e.get('JAVA_TOOL_OPTIONS', '') + ' -Xmx%s -XX:+UseParallelGC -Djava.io.tmpdir=%s' % (heap, wd)
     if env:
         e.update(env)
     t0 = time.time()
